@@ -164,6 +164,10 @@ func runC04(c *Ctx) {
 			for _, a := range in.(ssa.CallInstruction).Common().Args {
 				if mc, ok := strip(a).(*ssa.MakeClosure); ok {
 					expiry[mc.Fn.(*ssa.Function)] = in
+					// func() { t.expired(cb) }: the method the closure forwards to is the expiry code
+					if ft := forwardTarget(mc.Fn.(*ssa.Function)); ft != nil {
+						expiry[ft] = in
+					}
 				} else if _, isCall := strip(a).(*ssa.Call); isCall {
 					// the closure is built by a factory (t.fireOnce(cb))
 					if hf, _, _ := handlerFunction(p, a); hf != nil {
@@ -212,6 +216,12 @@ func runC04(c *Ctx) {
 				continue
 			}
 			c.touch(hf)
+			// a closure that only forwards to a method of the timer (func(error) { t.onReadable(cb) }): that method is the
+			// handler
+			if ft := forwardTarget(hf); ft != nil {
+				hf = ft
+				c.touch(hf)
+			}
 			// the call of the captured user function
 			eachInstr(hf, func(in ssa.Instruction) {
 				cc, ok := in.(ssa.CallInstruction)
